@@ -1,6 +1,7 @@
 //@unit zuc
 //@serves C08
 //@source gm-zuc/src/lib.rs
+//@export ZS cells_ok z_init z_after z_ks abs lemma_ks_len
 //@assume u32::rotate_left == rotl32 (assume_specification)
 //@assume S0/S1/D tables in the spec are a transcription of the ZUC v1.6 document (compared entry-wise with the code tables by lemma_tables)
 //@section spec
@@ -166,12 +167,14 @@ proof fn lemma_rot31(a: u32, k: u32, p: int)
     assert((r as int - p * (a as int)) == -(hi as int) * m31());
     lemma_mod_multiples_basic(-(hi as int), m31());
 }
-//@section spec local
+//@section spec
 spec fn abs(z: ZUC) -> ZS { ZS { s: z.s@, r1: z.r1, r2: z.r2 } }
 spec fn x_ok(z: ZUC) -> bool { z.x@ =~= seq![z_x0(z.s@), z_x1(z.s@), z_x2(z.s@), z_x3(z.s@)] }
+//@section spec local
 proof fn lemma_tables() ensures S0@ =~= z_s0(), S1@ =~= z_s1(), D@ =~= z_d() { }
 
 //@section spec
+proof fn lemma_ks_len(st: ZS, n: int) requires n >= 0 ensures z_ks(st, n).len() == n decreases n { if n > 0 { lemma_ks_len(st, n - 1); } }
 // C08 "however it is requested": splitting a request does not change the stream
 proof fn lemma_after_split(st: ZS, a: int, b: int)
     requires a >= 0, b >= 0
